@@ -793,6 +793,10 @@ static int exec_tokens(int nt, char **tok)
                 else if (!strncmp(tok[k], "pts_prog=", 9)) uref_clock_set_pts_prog(u, strtoull(tok[k] + 9, NULL, 10));
                 else if (!strncmp(tok[k], "dts_prog=", 9)) uref_clock_set_dts_prog(u, strtoull(tok[k] + 9, NULL, 10));
                 else if (!strncmp(tok[k], "pts_sys=", 8)) uref_clock_set_pts_sys(u, strtoull(tok[k] + 8, NULL, 10));
+                else if (!strncmp(tok[k], "dts_sys=", 8)) uref_clock_set_dts_sys(u, strtoull(tok[k] + 8, NULL, 10));
+                else if (!strncmp(tok[k], "cr_sys=", 7)) uref_clock_set_cr_sys(u, strtoull(tok[k] + 7, NULL, 10));
+                else if (!strncmp(tok[k], "cr_prog=", 8)) uref_clock_set_cr_prog(u, strtoull(tok[k] + 8, NULL, 10));
+                else if (!strncmp(tok[k], "duration=", 9)) uref_clock_set_duration(u, strtoull(tok[k] + 9, NULL, 10));
                 else if (!strcmp(tok[k], "disc")) uref_flow_set_discontinuity(u);
                 else if (!strcmp(tok[k], "start")) uref_block_set_start(u);
                 else if (!strcmp(tok[k], "random")) uref_flow_set_random(u);
